@@ -102,3 +102,8 @@ func VerifMergeErrors(ctx context.Context, cs ...chan error) chan error { return
 func VerifFanIn(ctx context.Context, channels ...chan *vss.Signature) chan *vss.Signature {
 	return fanIn(ctx, channels...)
 }
+
+// VerifHandleGrouping runs the key-generation handler for one grouping event.
+func (d *DosNode) VerifHandleGrouping(participants [][]byte, groupID string) {
+	d.handleGrouping(participants, groupID)
+}
